@@ -9,6 +9,12 @@ SPEC = {
          'sinks': {'C11_commit': 'cc_judge'}, 'n': {'quick': 150, 'thorough': 6000}},
         {'pkg': 'execute', 'src': 'harness/execute/c11_test.go', 'test': 'TestVerif_C11_exec', 'fakes': True,
          'sinks': {'C11_exec': 'ce_judge'}, 'n': {'quick': 150, 'thorough': 6000}},
+        {'pkg': 'commit', 'src': ['harness/commit/c11_test.go', 'harness/commit/c11c12_hist_test.go', 'harness/commit/c11h_test.go'],
+         'test': 'TestVerif_C11_commit_hist', 'fakes': True,
+         'sinks': {'C11_commit_hist': 'cch_judge', 'C11_commit_api': 'api_judge'}, 'n': {'quick': 10, 'thorough': 120}},
+        {'pkg': 'execute', 'src': ['harness/execute/c11_test.go', 'harness/execute/c11c12_hist_test.go', 'harness/execute/c11h_test.go'],
+         'test': 'TestVerif_C11_exec_hist', 'fakes': True,
+         'sinks': {'C11_exec_hist': 'ceh_judge', 'C11_exec_api': 'api_judge'}, 'n': {'quick': 10, 'thorough': 120}},
     ],
     'known': {},
     'rule': 'VERIF_N worlds per plugin; a world = role assignment (4..7 oracles, destination, 2..3 sources, feed chain own / a source '
@@ -21,11 +27,25 @@ SPEC = {
             'i\'s role; Observation of i (panic / error / canonicalised observation) and ValidateObservation of every oracle j on it. '
             'Execute: 1 world in 12 puts a report of an unconfigured chain (13) into the previous outcome (class pending-unknown-chain): outside the '
             'stable-home-configuration hypothesis, judged for model/implementation agreement only, never as a violation. '
-            'One case per (world, i). non-trivial = i does not read every chain and the observation carries data (or fails); distinct by full input',
+            'One case per (world, i). non-trivial = i does not read every chain and the observation carries data (or fails); distinct by full input. '
+            'commit_hist / exec_hist (long-lived instances): VERIF_N histories; per history one DON of 4 or 7 oracles, per oracle ONE real home-chain poller '
+            '(internal/reader homeChainPoller, 2 ms polling) over a scripted CCIPHome contract reader and ONE plugin (NewPlugin) on it, kept for the whole '
+            'history; 5..8 steps, each changes the chain configs on the contract (a chain given to / taken from an oracle keeping its others, the '
+            'destination taken / given, an oracle dropped from / added to every chain, F changed, readers rotated, a chain removed / added, two oracles '
+            'swapped, a reader of another DON, several at once, or a change whose poll fails) and waits until every poller has completed a fetch that started '
+            'after the change; then one round in a freshly drawn world: every oracle observes through a real ccipChainReader limited to the chains of its '
+            'current role, every oracle validates every observation. A case carries the poll results the pollers went through; the role map is computed in '
+            'Coq (model: through the poller state machine; property: latest successful poll only). exec_hist: a chain removed in the step may still be named by '
+            'the pending reports (class pending-unknown-chain, agreement only). commit_api / exec_api: after every step one instance is asked '
+            'GetSupportedChainsForPeer (every oracle, two foreign peers, an unknown one), GetKnownCCIPChains, GetChainConfig (every chain ever configured, an '
+            'unknown one), GetFChain, GetAllChainConfigs, ChainSupport.SupportedChains / SupportsDestChain (every oracle, one without peer id), '
+            'KnownSourceChainsSlice; instance 0 is asked at every even step (it has looked everything up before every change)',
     'trusted': ['contract readers, chain writers and the price reader are scripted fakes below the real ccipChainReader (JSON-filled '
                 'return values); they answer only for chains of the oracle\'s role and fail exactly the scripted calls',
                 'the price reader fake mirrors the reader-existence guards of pkg/reader/price_reader.go',
-                'home chain answers are scripted (fake mirrors internal/reader/home_chain.go)',
+                'home chain answers are scripted (fake mirrors internal/reader/home_chain.go) in the per-world parts; in the *_hist / *_api parts the '
+                'home chain is the real poller and only the CCIPHome contract reader below it is scripted (getAllChainConfigs answers / failures)',
+                'the *_hist parts wait for two fetch attempts per poller after every change (the second one can only start after setState of the first)',
                 'message hasher, report codec: repository mocks; token data observer: tokendata.NoopTokenDataObserver'],
     'assumptions': ['an oracle has a contract reader and a chain writer exactly for the chains of its home-chain role',
                     'all honest oracles hold the same home-chain view, so the verdict on (i, observation) does not depend on the validator j '
@@ -45,11 +65,17 @@ SPEC = {
                   'role assignments, oracles, reader states, failing-call patterns and phases the commit observation is produced without panic '
                   'and accepted; C11_exec_valid / C11_exec_no_panic - whatever the execute plugin produces is accepted, never a panic; '
                   'C11_exec - produced and accepted whenever all calls succeed, for every role; pre-repair functions refuted (F05, F18a, F18b, F18c, F18d). Correspondence: real plugins per oracle over role-limited readers, '
-                  'every i against every j, every run',
+                  'every i against every j, every run. Histories: C11_history_round / C11_history_commit / C11_history_exec - for EVERY list of poller events '
+                  '(Start, successful / failed / partial fetches, reads, Close) interleaved with rounds, a round is answered from the latest successfully '
+                  'fetched configuration alone (induction over the event list through the C18 snapshot theorem), so the honest observation of round k is '
+                  'accepted by every validation that sees the same latest configuration, whatever the role map was before; C11_history_role_map - every '
+                  'getter / ChainSupport answer after any event list is the Roles accessor on that configuration. Correspondence for histories: long-lived '
+                  'plugins on real pollers with the role map changing between rounds, judged per round',
     'level_note': 'Trusted: Coq kernel, hand-written model, differential harness with scripted contract readers. No axioms.',
     'modelled': 'commit.Plugin.Observation (discovery, merkleroot observer, tokenprice, chainfee processors), execute.Plugin.Observation '
                 '(getCommitReportsObservation, getMessagesObservation incl. readAllMessages and the costly-message observer, getFilterObservation), '
                 'ccipChainReader guards (DiscoverContracts, GetRmnCurseInfo, NextSeqNum, GetExpectedNextSequenceNumber, GetRMNRemoteConfig, '
                 'MsgsBetweenSeqNums, GetChainsFeeComponents, GetWrappedNativeTokenPriceUSD, GetChainFeePriceUpdate, CommitReportsGTETimestamp, '
-                'ExecutedMessageRanges, Nonces, LinkPriceUSD), both ValidateObservation functions',
+                'ExecutedMessageRanges, Nonces, LinkPriceUSD), both ValidateObservation functions; homeChainPoller (setState, getters) and '
+                'plugincommon.ChainSupport through the C18 model (Pollers.v) composed with Roles.v in RolesHist.v',
 }
